@@ -107,9 +107,10 @@ def r10_1_assignment(ctx):
             problems.append("does not return the per-routine local slot sets")
         ctx.check(not problems, "R10.1", construct, "; ".join(problems[:3]), f.where, fact={"assignment": {k.name: v for k, v in list(flat.items())[:8]}})
     # limits
-    for name, n, want_raise in (("exactly 256 slots", 256, False), ("257 slots", 257, True)):
+    for name, n, want_raise, nreq in (("exactly 256 slots", 256, False, 0), ("257 slots", 257, True, 0), ("3 requested + 253 automatic (256 total)", 253, False, 3), ("3 requested + 254 automatic (257 total)", 254, True, 3), ("requested 255 + 256 automatic (257 total)", 256, True, 1)):
         B = Blocks()
-        prog, allops = _program(OpS, B, {None: [_slot(f"a{i}", 500 + i, False) for i in range(n)]})
+        reqs = [_slot("r255", 255, True)] if nreq == 1 else [_slot(f"r{7 * j}", 7 * j, True) for j in range(nreq)]
+        prog, allops = _program(OpS, B, {None: reqs + [_slot(f"a{i}", 500 + i, False) for i in range(n)]})
         try:
             run_function(f.node, {"subroutineBlocks": prog}, make_oracle(OpS, B, oracle_extra), f.fq, resolver=lambda nm: css.node if nm == "collectScratchSlots" else None)
             raised = None
